@@ -3,7 +3,8 @@
    udp_forwarder.rs) for every operation history, with the environment's answers (socket can be
    opened, send succeeds, a reply or a socket error arrives, the timer ticks) as operations. *)
 From Coq Require Import List NArith Bool.
-From TT Require Import Lib.BytesL Generated.UdpFacts Generated.SocksFacts Model.UdpFlows Proofs.UdpFlowsProofs.
+From TT Require Import Lib.BytesL Generated.UdpFacts Generated.SocksFacts Model.UdpFlows Proofs.UdpFlowsProofs
+  Model.SocksFlows Proofs.SocksFlowsProofs.
 Import ListNotations.
 Open Scope N_scope.
 
@@ -108,11 +109,28 @@ Qed.
 Print Assumptions faults_stay_inside_their_flow.
 
 (* the tie: what the translator read in udp_pipe.rs / udp_forwarder.rs *)
+(* towards a SOCKS5 upstream (one association per client source, shared by its destinations): after every history of
+   datagrams and closes the multiplexer is alive and every live pair still has its destination among the peers of its
+   source's association, so the close of one pair never takes the association away from another *)
+Theorem socks_associations_follow_the_live_pairs :
+  forall ops,
+    k_dead (krun SOCKS_ASSOCIATION_RECORDS_EVERY_PEER ops) = false
+    /\ forall src dst, In (src, dst) (k_flows (krun SOCKS_ASSOCIATION_RECORDS_EVERY_PEER ops)) ->
+         exists ps, klookup src (k_assocs (krun SOCKS_ASSOCIATION_RECORDS_EVERY_PEER ops)) = Some ps /\ In dst ps.
+Proof. intros ops. exact (krun_inv ops). Qed.
+Print Assumptions socks_associations_follow_the_live_pairs.
+
+(* when further destinations are not recorded, the close of the first pair ends the multiplexer at the next datagram of the second *)
+Example ex_unrecorded_peer_ends_the_multiplexer :
+  k_dead (krun false [KDgram (1, 10); KDgram (1, 20); KClose (1, 10); KDgram (1, 20)]) = true
+  /\ k_dead (krun true [KDgram (1, 10); KDgram (1, 20); KClose (1, 10); KDgram (1, 20)]) = false.
+Proof. split; reflexivity. Qed.
+
 Theorem code_facts :
   UDP_TICK_CLOSES_REVERSED_KEY = true /\ UDP_TICK_EXPIRES_IDLE_LONGER_THAN_TIMEOUT = true
   /\ UDP_FAILED_OPEN_FORGETS_FLOW = true /\ UDP_DONE_AND_CLOSE_AS_MODELLED = true
   /\ UDP_SEND_ERROR_DROPS_DATAGRAM = true /\ UDP_FORWARDER_TABLE_AS_MODELLED = true
-  /\ UDP_READ_ERRORS_REMOVE_THE_FLOW = true /\ SOCKS_UDP_READ_DOES_NOT_WAIT = true.
+  /\ UDP_READ_ERRORS_REMOVE_THE_FLOW = true /\ SOCKS_UDP_READ_DOES_NOT_WAIT = true /\ SOCKS_ASSOCIATION_RECORDS_EVERY_PEER = true.
 Proof. repeat split; exact eq_refl. Qed.
 Print Assumptions code_facts.
 
